@@ -13,7 +13,9 @@
 (*                 acknowledged (ok-paced: tcp_streaming_mode is off);      *)
 (*                 judged on jobs without a resume() so far -- the restore  *)
 (*                 commands of resume() are queued while nothing is         *)
-(*                 printing and go out back to back, by design              *)
+(*                 printing and go out back to back, by design; not judged  *)
+(*                 at all when tcp_streaming_mode is on (record field       *)
+(*                 `paced` FALSE): then only order and completeness remain  *)
 (*   TCP_Complete  at the end the print thread is gone and all lines went   *)
 (*                 out, once                                                 *)
 (*   TCP_Restore   un-numbered restore commands of resume() excepted: a     *)
@@ -42,11 +44,11 @@ Holds(c, e) ==
   CASE c = "TCP_Plain"    -> e.k = "tx" => (~Framed(e.text) /\ e.text # <<>> /\ e.text[Len(e.text)] = 10)
     [] c = "TCP_Order"    -> (e.k = "tx" /\ e.text # Reset /\ ~st.resumed) => IsNext(e.text)
     [] c = "TCP_Restore"  -> (e.k = "tx" /\ e.text # Reset /\ ~IsNext(e.text)) => st.resumed
-    [] c = "TCP_Paced"    -> (e.k = "tx" /\ ~st.ever) => st.ntx <= st.noks
+    [] c = "TCP_Paced"    -> (e.k = "tx" /\ ~st.ever /\ Traces[tid].paced) => st.ntx <= st.noks
     [] c = "TCP_Complete" -> IsEnd(e) => ((e.k = "newjob" \/ e.joined) /\ st.k = Len(st.job))
 Ante(c, e) ==
   CASE c = "TCP_Plain" -> e.k = "tx"
-    [] c = "TCP_Paced" -> e.k = "tx" /\ ~st.ever
+    [] c = "TCP_Paced" -> e.k = "tx" /\ ~st.ever /\ Traces[tid].paced
     [] c = "TCP_Order" -> e.k = "tx" /\ e.text # Reset /\ ~st.resumed
     [] c = "TCP_Restore" -> e.k = "tx" /\ e.text # Reset /\ st.resumed
     [] c = "TCP_Complete" -> IsEnd(e)
